@@ -8,6 +8,7 @@ package main
 // (field path = canonical scalar text), so the JSON codec stays outside the comparison.
 
 import (
+	"encoding/binary"
 	"bytes"
 	"encoding/hex"
 	"encoding/json"
@@ -43,6 +44,9 @@ type restOp struct {
 	Query  string `json:"query,omitempty"` // hex, raw query
 	// QParsed: the query as net/url parses it ([hex key, hex values...]); net/url is an input of the model
 	QParsed [][]string `json:"qparsed,omitempty"`
+	// for rest_out_cut: how the enveloped client's only message is cut ("env": envelope only,
+	// "part": envelope and a strict prefix of the payload, "short": part of the envelope)
+	Cut string `json:"cut,omitempty"`
 }
 
 const restMethodPath = "/cfg.v1.Lib/Get"
@@ -378,6 +382,53 @@ func init() {
 		}
 		return out
 	}
+	// rest_out_cut <op>: a gRPC client of a REST-only service whose only message is cut: nothing may
+	// be dispatched (the REST request line is made from the complete message)
+	executors["rest_out_cut"] = func(a []string) string {
+		raw, err := hex.DecodeString(a[0])
+		if err != nil {
+			return "bad-op"
+		}
+		op := &restOp{}
+		if err := json.Unmarshal(raw, op); err != nil {
+			return "bad-op"
+		}
+		t, backend, err := restTargetTranscoder(op.Rule)
+		if err != nil {
+			return "config-rejected"
+		}
+		msg, err := msgFromLeaves(op.Leaves)
+		if err != nil {
+			return "bad-op"
+		}
+		payload, _ := proto.Marshal(msg)
+		if len(payload) < 2 {
+			payload = append(payload, 0x52, 0x00) // (field 10 `data`, empty: any two bytes will do, they never arrive whole)
+		}
+		frame := make([]byte, 5, 5+len(payload))
+		binary.BigEndian.PutUint32(frame[1:], uint32(len(payload)))
+		switch op.Cut {
+		case "env":
+		case "part":
+			frame = append(frame, payload[:len(payload)-1]...)
+		default:
+			frame = frame[:3]
+		}
+		req := httptest.NewRequest("POST", "http://example.test"+restMethodPath, bytes.NewReader(frame))
+		req.ProtoMajor, req.ProtoMinor, req.Proto = 2, 0, "HTTP/2.0"
+		req.Header.Set("Content-Type", "application/grpc+proto")
+		req.Header.Set("Te", "trailers")
+		backend.calls, backend.line, backend.got = 0, "", nil
+		rec := httptest.NewRecorder()
+		t.ServeHTTP(rec, req)
+		if backend.calls == 0 {
+			if rec.Header().Get("Grpc-Status") == "0" || rec.Result().Trailer.Get("Grpc-Status") == "0" {
+				return "disp=0 status=ok"
+			}
+			return "disp=0 err"
+		}
+		return fmt.Sprintf("disp=%d enc %s", backend.calls, backend.line)
+	}
 	streams["rest"] = streamRest
 }
 
@@ -462,7 +513,7 @@ func restHTTPTranscoder(rule cfgBinding) (*vanguard.Transcoder, *restBackend, er
 
 // ---- generator ----
 
-var restStrings = []string{"b1", "shelves/s1", "shelves/a b", "x/1", "a/q/b/r/s", "x/k", "a b", "a/b", "a%2Fb", "100%", "ü", "x:y", "a?b=c&d", "+plus+", "..", ".", "~t_-.", "a;b,c", "quo\"te", "{brace}", "", "shelves/s1", "shelves/s 1/x", "#frag", "[x]", "%", "%zz", "q=1"}
+var restStrings = []string{"b1", "shelves/s1", "shelves/a b", "x/1", "a/q/b/r/s", "x/k", "a b", "a/b", "a%2Fb", "100%", "ü", "x:y", "a?b=c&d", "+plus+", "..", ".", "~t_-.", "a;b,c", "quo\"te", "{brace}", "", "shelves/s1", "shelves/s 1/x", "#frag", "[x]", "%", "%zz", "q=1", "Shelves/s1", "SHELVES/s1", "X/1", "A/q/b/r", "a/q/B/r"}
 
 var restTemplates = []string{"/v1/books", "/v1/books/{name}", "/v1/{name=shelves/*}/books", "/v1/books/{inner.id}", "/v1/{name=**}", "/v1/books:archive",
 	"/v1/items/{n}", "/v1/deep/{inner.deep.leaf}/x", "/v2/{name}/{inner.id}", "/v1/*/list", "/v1/books/{name}:verb", "/v1/shelves/{name=*}",
@@ -479,9 +530,57 @@ func streamRest(e *Emitter, rng *rand.Rand, tier string) {
 		op.Schema.Messages = cfgMessages
 		op.Rule = cfgBinding{Kind: pick(rng, []string{"get", "post", "put", "patch", "delete"}), Path: pick(rng, restTemplates),
 			Body: pick(rng, []string{"", "", "*", "inner", "tags", "name", "n"})}
+		// a value for `name` made to fit (or to just miss) the pattern the rule gives it: right literals,
+		// one segment too many or too few, a literal in another letter case
+		fitName := func() (string, bool) {
+			i := strings.Index(op.Rule.Path, "{name=")
+			if i < 0 {
+				return "", false
+			}
+			pat := op.Rule.Path[i+len("{name="):]
+			pat = pat[:strings.Index(pat, "}")]
+			var parts []string
+			for _, p := range strings.Split(pat, "/") {
+				switch p {
+				case "*":
+					parts = append(parts, pick(rng, []string{"s1", "a b", "x", "B"}))
+				case "**":
+					for k := rng.IntN(3); k > 0; k-- {
+						parts = append(parts, pick(rng, []string{"p", "q r", "z"}))
+					}
+				default:
+					if rng.IntN(6) == 0 {
+						p = strings.ToUpper(p[:1]) + p[1:]
+					}
+					parts = append(parts, p)
+				}
+			}
+			switch rng.IntN(6) {
+			case 0:
+				// one segment too many: the literal that follows the variable in the template, or anything
+				extra := "extra"
+				rest := op.Rule.Path[i:]
+				rest = rest[strings.Index(rest, "}")+1:]
+				if strings.HasPrefix(rest, "/") && rng.IntN(3) != 0 {
+					extra = strings.SplitN(strings.SplitN(rest[1:], "/", 2)[0], ":", 2)[0]
+				}
+				if extra == "" || strings.ContainsAny(extra, "{*") {
+					extra = "extra"
+				}
+				parts = append(parts, extra)
+			case 1:
+				if len(parts) > 1 {
+					parts = parts[:len(parts)-1]
+				}
+			}
+			return strings.Join(parts, "/"), true
+		}
 		leaf := func() [2]string {
 			switch rng.IntN(12) {
 			case 0, 1, 2:
+				if v, ok := fitName(); ok && rng.IntN(2) == 0 {
+					return [2]string{"name", hs(v)}
+				}
 				return [2]string{"name", hs(str())}
 			case 3:
 				return [2]string{"n", hs(pick(rng, []string{"0", "7", "-1", "2147483647", "-2147483648"}))}
@@ -525,11 +624,25 @@ func streamRest(e *Emitter, rng *rand.Rand, tier string) {
 				seen[l[0]] = true
 				op.Leaves = append(op.Leaves, l)
 			}
+			if strings.Contains(op.Rule.Path, "{name") && !seen["name"] && rng.IntN(4) != 0 {
+				// a rule that binds `name` in the path is mostly exercised with a name
+				v := str()
+				if f, ok := fitName(); ok && rng.IntN(3) != 0 {
+					v = f
+				}
+				op.Leaves = append(op.Leaves, [2]string{"name", hs(v)})
+			}
 			sort.SliceStable(op.Leaves, func(i, j int) bool { return op.Leaves[i][0] < op.Leaves[j][0] })
 			raw, _ := json.Marshal(op)
 			e.Class("rest:roundtrip body=" + op.Rule.Body)
 			e.Emit("rest_rt " + hex.EncodeToString(raw))
 			e.Emit("rest_out " + hex.EncodeToString(raw))
+			if rng.IntN(4) == 0 {
+				op.Cut = pick(rng, []string{"env", "env", "part", "short"})
+				raw2, _ := json.Marshal(op)
+				e.Class("rest:cut-message-to-rest-backend " + op.Cut)
+				e.Emit("rest_out_cut " + hex.EncodeToString(raw2))
+			}
 			continue
 		}
 		// an arbitrary REST request against the rule
